@@ -77,7 +77,7 @@ func c10ReadConfig(e *Env, rule string) {
 	// Run itself and the helpers of its package it calls directly (an extracted loop keeps its guards)
 	siteFns := []*ssa.Function{run}
 	for _, c := range callsIn(run, true) {
-		if g := c.Common().StaticCallee(); g != nil && g.Pkg == run.Pkg && g != run && len(g.Blocks) > 0 && g.Signature.Recv() == nil {
+		if g := c.Common().StaticCallee(); g != nil && g.Pkg == run.Pkg && g != run && len(g.Blocks) > 0 {
 			if v := c.Value(); v != nil && v.Referrers() != nil && len(*v.Referrers()) > 0 {
 				siteFns = append(siteFns, g)
 			}
